@@ -148,7 +148,9 @@ def main(ctx):
 
     # R ---------------------------------------------------------------------------------------
     res = ctx.path("res.ndjson")
-    ctx.harness(["replay", "C15", "--cases", cases, "--out", res], timeout=1500)
+    bindir = ctx.build_cmds(["obirefidx"])
+    ctx.harness(["replay", "C15", "--cases", cases, "--out", res, "--opt", "bindir=" + bindir,
+                 "--opt", "cmdevery=%d" % (400 if thorough else 40)], timeout=1500)
     summ = ctx.add_results(res)
     for need in ("kmer.common4", "closest.obitag.asgiven", "closest.obitag.reversed", "closest.obitag2.asgiven",
                  "closest.obitag2.reversed", "closest.cls.scanloss/idxok/tie", "index.asgiven", "index.reversed",
